@@ -23,8 +23,9 @@ MANIFEST_INFO = {
 
 # extra kinds: custom exception classes and subclasses of the signal exceptions
 CUSTOM_FRONT, CUSTOM_MID, SKIP_SUB, FAIL_SUB, XFAIL_SUB = "custom_front", "custom_mid", "skip_sub", "fail_sub", "xfail_sub"
+XFAIL_ERR = "xfail_err"  # expectFailure(reason, predicate) whose predicate raises an error rather than failing: an error
 CUSTOM_BASE = "custom_base"  # derives from BaseException (as asyncio.CancelledError or pytest's outcome exceptions do), own handler
-KINDS = pg.ALL_KINDS + (CUSTOM_FRONT, CUSTOM_MID, SKIP_SUB, FAIL_SUB, XFAIL_SUB, "multi_fail_skip", "fx_skip_bad_cleanup", CUSTOM_BASE)
+KINDS = pg.ALL_KINDS + (CUSTOM_FRONT, CUSTOM_MID, SKIP_SUB, FAIL_SUB, XFAIL_SUB, "multi_fail_skip", "fx_skip_bad_cleanup", CUSTOM_BASE, XFAIL_ERR)
 
 
 class CustomBase(BaseException):
@@ -68,6 +69,7 @@ MAPPED = {
     CUSTOM_FRONT: "handler:front",
     CUSTOM_MID: "handler:mid",
     CUSTOM_BASE: "handler:base",
+    XFAIL_ERR: "addError",
 }
 UNSUCCESSFUL = ("addError", "addFailure", "addUnexpectedSuccess")
 
@@ -110,12 +112,18 @@ def perform(case, ctx, stage, kind):
         ctx.xlog.append(("raise", stage, kind))
         case.useFixture(_SkipThenBoomFixture(case, marker))
         raise AssertionError("useFixture returned")
-    if kind in (CUSTOM_FRONT, CUSTOM_MID, SKIP_SUB, FAIL_SUB, XFAIL_SUB, CUSTOM_BASE):
+    if kind in (CUSTOM_FRONT, CUSTOM_MID, SKIP_SUB, FAIL_SUB, XFAIL_SUB, CUSTOM_BASE, XFAIL_ERR):
         marker = "%s!%s" % (stage, kind)
         ctx.raised.append((stage, kind, marker))
         ctx.xlog.append(("raise", stage, kind))
         if kind == CUSTOM_BASE:
             raise CustomBase(marker)
+        if kind == XFAIL_ERR:
+            def broken_predicate():
+                raise pg.VerifError(marker)
+
+            case.expectFailure("known bug", broken_predicate)
+            raise AssertionError("expectFailure returned")
         if kind == CUSTOM_FRONT:
             raise CustomFront(marker)
         if kind == CUSTOM_MID:
@@ -135,6 +143,7 @@ def perform(case, ctx, stage, kind):
 pg.NON_EXCEPTION_KINDS += (CUSTOM_BASE,)
 for _k in (CUSTOM_FRONT, CUSTOM_MID, SKIP_SUB, FAIL_SUB, XFAIL_SUB, CUSTOM_BASE):
     pg.FLATTEN[_k] = (_k,)
+pg.FLATTEN[XFAIL_ERR] = (pg.ERROR,)
 pg.FLATTEN[MULTI_FAIL_SKIP] = (pg.FAIL, pg.SKIP)
 pg.FLATTEN[FX_SKIP_BAD_CLEANUP] = (pg.SKIP, pg.ERROR, pg.ERROR)  # skip, the cleanup's error, fixtures' SetupError
 
